@@ -198,6 +198,7 @@ End L.
 Section F.
   Variable V : Type.
   Variable bin : binop -> V -> V -> V.
+  Variable un : unop -> V -> V.
   Notation node := (node V).
   Notation node_ind' := (PAFC01.Proofs.node_ind' V).
   Variable vals : nat -> option V.
@@ -206,26 +207,26 @@ Section F.
     match a with
     | [] => Some []
     | (k, c) :: a' =>
-        match fix_tree V bin vals c, fix_attrs a' with
+        match fix_tree V bin un vals c, fix_attrs a' with
         | Some c', Some r => Some ((k, c') :: r)
         | _, _ => None
         end
     end.
 
-  Lemma fix_model cls ctor attrs : fix_tree V bin vals (NModel cls ctor attrs) = option_map (NModel cls ctor) (fix_attrs attrs).
+  Lemma fix_model cls ctor attrs : fix_tree V bin un vals (NModel cls ctor attrs) = option_map (NModel cls ctor) (fix_attrs attrs).
   Proof. reflexivity. Qed.
-  Lemma fix_coll attrs : fix_tree V bin vals (NColl attrs) = option_map NColl (fix_attrs attrs).
+  Lemma fix_coll attrs : fix_tree V bin un vals (NColl attrs) = option_map NColl (fix_attrs attrs).
   Proof. reflexivity. Qed.
 
   Lemma fix_members_vals (args' : nat -> option V) (ms : list (string * (nat * node))) :
     Forall (fun m => is_leaf V (snd (snd m)) = true) ms ->
     forall r, fix_members V vals ms = Some r ->
-    map (mval V bin args') r = map (mval V bin vals) ms /\
+    map (mval V bin un args') r = map (mval V bin un vals) ms /\
     (forall m, In m r -> is_const V (snd (snd m)) = true).
   Proof.
     induction 1 as [|[k [i c]] ms Hc Hms IH]; intros r E; simpl in E.
     - inversion E; subst. split; [reflexivity|intros m []].
-    - destruct c as [p|v|?|? ? ? ? ?|? ? ?|?]; simpl in Hc; try discriminate.
+    - destruct c as [p|v|?|? ? ? ? ?|? ? ?|? ? ?|?]; simpl in Hc; try discriminate.
       + destruct (vals p) as [v|] eqn:Ev; [|discriminate].
         destruct (fix_members V vals ms) as [r0|] eqn:Er; [|discriminate]. inversion E; subst.
         destruct (IH r0 eq_refl) as [A B]. split.
@@ -245,10 +246,10 @@ Section F.
   Qed.
 
   (* the fixed model has no free parameter left and every assignment builds the best-fit instance *)
-  Theorem fixed_instance : forall n, wf V n -> forall n', fix_tree V bin vals n = Some n' ->
-    walk V n' = [] /\ forall args', inst V bin args' n' = inst V bin vals n.
+  Theorem fixed_instance : forall n, wf V n -> forall n', fix_tree V bin un vals n = Some n' ->
+    walk V n' = [] /\ forall args', inst V bin un args' n' = inst V bin un vals n.
   Proof.
-    induction n as [p|v|ms _|o ln rn l r IHl IHr|cls ctor attrs IH|attrs IH] using node_ind'; intros W n' E.
+    induction n as [p|v|ms _|o ln rn l r IHl IHr|uo unm uc IHc|cls ctor attrs IH|attrs IH] using node_ind'; intros W n' E.
     - simpl in E. destruct (vals p) as [v|] eqn:Ev; [|discriminate]. inversion E; subst.
       split; [reflexivity|]. intro args'. cbn [inst]. rewrite Ev. reflexivity.
     - inversion E; subst. split; reflexivity.
@@ -259,16 +260,18 @@ Section F.
         apply (proj2 (fix_members_vals vals ms Wl r Er)). exact Hm.
       + intro args'. apply inst_tuple_eq; [exact Wn|].
         rewrite <- (proj1 (fix_members_vals args' ms Wl r Er)). apply Permutation_map. apply sort_by_perm.
-    - cbn [fix_tree] in E. destruct (inst V bin vals (NBin o ln rn l r)) as [v| | | |] eqn:Ei; try discriminate.
+    - cbn [fix_tree] in E. destruct (inst V bin un vals (NBin o ln rn l r)) as [v| | | |] eqn:Ei; try discriminate.
+      inversion E; subst. split; reflexivity.
+    - cbn [fix_tree] in E. destruct (inst V bin un vals (NUn uo unm uc)) as [v| | | |] eqn:Ei; try discriminate.
       inversion E; subst. split; reflexivity.
     - rewrite fix_model in E. destruct (fix_attrs attrs) as [a'|] eqn:Ea; [|discriminate]. inversion E; subst.
       apply wf_model in W.
       assert (X : (forall kc, In kc a' -> walk V (snd kc) = []) /\
-                  forall args', map (fun kv => (fst kv, inst V bin args' (snd kv))) a' = map (fun kv => (fst kv, inst V bin vals (snd kv))) attrs).
+                  forall args', map (fun kv => (fst kv, inst V bin un args' (snd kv))) a' = map (fun kv => (fst kv, inst V bin un vals (snd kv))) attrs).
       { clear E. revert a' Ea. induction attrs as [|[k c] a IHa]; intros a' Ea; simpl in Ea.
         - inversion Ea; subst. split; [intros kc []|reflexivity].
         - inversion IH as [|? ? IHc IHrest]; subst. inversion W as [|? ? Wc Wrest]; subst. simpl in Wc, IHc.
-          destruct (fix_tree V bin vals c) as [c'|] eqn:Ec; [|discriminate].
+          destruct (fix_tree V bin un vals c) as [c'|] eqn:Ec; [|discriminate].
           destruct (fix_attrs a) as [r|] eqn:Er; [|discriminate]. inversion Ea; subst.
           destruct (IHc Wc c' eq_refl) as [Wk In']. destruct (IHa IHrest Wrest r eq_refl) as [A B]. split.
           + intros kc [<-|Hkc]; [exact Wk|apply A; exact Hkc].
@@ -279,11 +282,11 @@ Section F.
     - rewrite fix_coll in E. destruct (fix_attrs attrs) as [a'|] eqn:Ea; [|discriminate]. inversion E; subst.
       apply wf_coll in W.
       assert (X : (forall kc, In kc a' -> walk V (snd kc) = []) /\
-                  forall args', map (fun kv => (fst kv, inst V bin args' (snd kv))) a' = map (fun kv => (fst kv, inst V bin vals (snd kv))) attrs).
+                  forall args', map (fun kv => (fst kv, inst V bin un args' (snd kv))) a' = map (fun kv => (fst kv, inst V bin un vals (snd kv))) attrs).
       { clear E. revert a' Ea. induction attrs as [|[k c] a IHa]; intros a' Ea; simpl in Ea.
         - inversion Ea; subst. split; [intros kc []|reflexivity].
         - inversion IH as [|? ? IHc IHrest]; subst. inversion W as [|? ? [Wc _] Wrest]; subst. simpl in Wc, IHc.
-          destruct (fix_tree V bin vals c) as [c'|] eqn:Ec; [|discriminate].
+          destruct (fix_tree V bin un vals c) as [c'|] eqn:Ec; [|discriminate].
           destruct (fix_attrs a) as [r|] eqn:Er; [|discriminate]. inversion Ea; subst.
           destruct (IHc Wc c' eq_refl) as [Wk In']. destruct (IHa IHrest Wrest r eq_refl) as [A B]. split.
           + intros kc [<-|Hkc]; [exact Wk|apply A; exact Hkc].
